@@ -79,7 +79,10 @@ class C13(Check):
         # the application tries to send on an association that is not open yet (the call returns None),
         # the association opens afterwards: nothing of that may be remembered
         early = rng.random() < 0.3
-        return {"apps_per_worker": apps_per_worker, "routes": routes, "reqs": reqs, "early_send": early,
+        # the application itself has a request outstanding (waiting for its answer) whose Hop-by-Hop
+        # identifier happens to equal the one the peer chose for one of its requests
+        local_pending = rng.random() < 0.25
+        return {"apps_per_worker": apps_per_worker, "routes": routes, "reqs": reqs, "early_send": early, "local_pending": local_pending,
                 "sched": draw_sched_b(rng), "knobs": knobs, "horizon": 40.0}
 
     def shrink(self, scn):
@@ -104,10 +107,11 @@ class C13(Check):
                 c = copy.deepcopy(scn)
                 del c["routes"][i]
                 yield c
-        if scn.get("early_send"):
-            c = copy.deepcopy(scn)
-            c["early_send"] = False
-            yield c
+        for k in ("early_send", "local_pending"):
+            if scn.get(k):
+                c = copy.deepcopy(scn)
+                c[k] = False
+                yield c
         for k, v in (("REQUEST_THRESHOLD", 40), ("SEND_THRESHOLD", 50)):
             if scn["knobs"].get(k) != v:
                 c = copy.deepcopy(scn)
@@ -201,6 +205,16 @@ class C13(Check):
             for wi, idxs in enumerate(scn["apps_per_worker"]):
                 for ai in idxs:
                     stub_of[ai] = wb.stubs[wi]
+            if scn.get("local_pending") and scn["reqs"]:
+                from bromelia.base import DiameterHeader
+                from bromelia.avps import DestinationRealmAVP as _DR
+                r0 = scn["reqs"][0]
+                hdr = DiameterHeader(application_id=APPS[r0["app"]][2].to_bytes(4, "big"), command_code=(317).to_bytes(3, "big"),
+                                     hop_by_hop=(0x33000000).to_bytes(4, "big"), end_to_end=(0x55000000).to_bytes(4, "big"))
+                local_req = DiameterRequest(header=hdr, avps=[SessionIdAVP(b"local;0;0"), OriginHostAVP(LOCAL_HOST),
+                                                              OriginRealmAVP(LOCAL_REALM), _DR(PEER_REALM)])
+                wb.call("local_sender", app.send_message, local_req)
+                sim.sleep(0.005)
             t0 = sim.now + 0.01
             for i, r in enumerate(scn["reqs"]):
                 hb = 0x33000000 + i
